@@ -66,6 +66,8 @@ def parseOp : List String → Option EOp
     match e.toNat?, o.toNat?, parseList a, parseList d with
     | some e, some o, some a, some d => some ⟨e, .manual o a d⟩
     | _, _, _, _ => none
+  -- optional 8th field: message type / delivery route flags of the harness; handleMessage looks at neither
+  | ["msg", e, acc, res, sk, usage, owners, _flags] => parseOp ["msg", e, acc, res, sk, usage, owners]
   | ["msg", e, acc, res, sk, usage, owners] =>
     match e.toNat?, acc.toNat?, res.toNat?, sk.toNat?, usage.toNat?, parseOwners owners with
     | some e, some acc, some res, some sk, some usage, some owners =>
